@@ -243,7 +243,7 @@ pub trait RiRefBufImpl: Sized + RiRefImpl {
 			Some(new_authority) => match parse::find_authority(bytes, 0) {
 				Ok(range) => unsafe { self.replace(range, new_authority.as_bytes()) },
 				Err(start) => {
-					if !bytes[start..].starts_with(b"/") {
+					if !matches!(bytes.get(start), None | Some(b'/' | b'?' | b'#')) {
 						// VALIDITY: When an authority is present, the path must
 						//           be absolute.
 						unsafe {
@@ -311,7 +311,7 @@ pub trait RiRefBufImpl: Sized + RiRefImpl {
 				bytes[start..actual_start].copy_from_slice(b"/.");
 				bytes[actual_start..(actual_start + path.len())].copy_from_slice(path.as_bytes())
 			}
-		} else if has_authority && path.is_relative() {
+		} else if has_authority && path.is_relative() && !path.as_bytes().is_empty() {
 			// VALIDITY: When an authority is present, the path must be
 			//           absolute.
 			unsafe {
